@@ -297,7 +297,7 @@ class Model:
         order = []
         for ln in lines:
             parts = ln.split(" ", 2)
-            key = parts[1].split("/")[0] if len(parts) > 1 and parts[0] in ("grammar", "run", "spec", "gen", "emit", "opt", "link") else ""
+            key = parts[1].split("/")[0] if len(parts) > 1 and parts[0] in ("grammar", "run", "spec", "gen", "emit", "semit", "opt", "link") else ""
             if key not in groups:
                 groups[key] = []
                 order.append(key)
@@ -338,6 +338,9 @@ class Model:
             elif line.startswith("emit "):
                 head, rest = line.split(" :: ", 1)
                 res[("emit", head.split(" ")[1])] = rest
+            elif line.startswith("semit "):
+                head, rest = line.split(" :: ", 1)
+                res[("semit", head.split(" ")[1])] = rest
             elif line.startswith("link "):
                 head, rest = line.split(" :: ", 1)
                 res[("link", head.split(" ")[1])] = rest
